@@ -417,7 +417,7 @@ int main(int argc, char** argv)
     // ---------------------------------------------------------------- (c) delivery histories
     std::vector<std::string> alphabet{"G", "H", "dup-tail", "strip-witness-t1", "strip-witness-all-txs", "strip-coinbase-witness", "witness-byte/tx1", "witness-byte/coinbase-reserved-value",
                                       "coinbase-witness-33-bytes", "commitment-altered", "swap-t1-t2"};
-    const int D = big ? 4 : 3;
+    const int D = big ? 5 : 3;
     vx::Distinct states;
     uint64_t sequences = 0, g_deliveries = 0, variant_deliveries = 0, variant_before_genuine = 0;
     auto run_sequence = [&](const std::vector<int>& seq) {
